@@ -28,6 +28,8 @@ PACKS = {
     "pv2": dict(prefix_verified=2),
     "needrev": dict(parent_factory=True, expand=False, empty_prefix_verified=True),
     "split": dict(split=True),
+    "oneway": dict(oneway=True, inf=True),
+    "onewaysym": dict(oneway=True, inf=True, sym=True),
 }
 STATS = {
     "s0": (),
@@ -55,6 +57,11 @@ def configs(tier: str, seed: int, flavours=("default", "forget", "forest"), pack
                     sch = rnd.choice(list(SCHEDULES)) if tier == "quick" else None
                     for s in ([sch] if sch else list(SCHEDULES)):
                         out.append(("", tuple(pats), "ab", st, pk, fl, s, True))
+    # a pack in which the start class is only reachable through a foreign-parent rule / a reverse rule
+    for pats in (("aa",), ("aa", "bb"), ("aba",), ("aab",)):
+        for fl in flavours:
+            if "needrev" in packs:
+                out.append(("a", pats, "ab", stats[0], "needrev", fl, rnd.choice(list(SCHEDULES)), True))
     for pats in PATTERN_SETS_ABC[: (4 if tier == "thorough" else 2)]:
         for pk in ("plain", "factory", "inf"):
             for fl in flavours:
@@ -79,7 +86,7 @@ def build(cfg):
 
 
 def W_needs_redundant(pk):
-    return bool(PACKS[pk].get("inf"))
+    return bool(PACKS[pk].get("inf")) and not PACKS[pk].get("oneway")
 
 
 def tid_of(cfg):
